@@ -69,7 +69,12 @@ func (server *Server) HDel(conn *redis.Conn, key string, fields []string) (*redi
 	if !ok {
 		return redis.NewIntegerMessage(0), nil
 	}
-	return redis.NewIntegerMessage(hash.Del(fields)), nil
+	removedFields := hash.Del(fields)
+	if len(hash) == 0 {
+		// A hash that has lost its last field no longer exists.
+		db.RemoveRecord(key)
+	}
+	return redis.NewIntegerMessage(removedFields), nil
 }
 
 // nolint: ifshort
